@@ -3,7 +3,7 @@ import os
 import engine, ops, vlib, gen
 from corr import Case
 
-OPS = ["inv_m4ri", "invert_naive", "trtri_upper"]
+OPS = ["inv_m4ri", "invert_naive", "trtri_upper", "trtri_upper_russian"]
 PROOFS = ["Properties_C05"]
 
 
